@@ -54,7 +54,7 @@ pub fn run(ctx: &mut Ctx) {
         "for the single-slot Option store a registration replaces the slot; 'exactly one added' is asserted for the map-like stores".into(),
         "the relying-party verifier uses ciborium::Value, serde_json::Value and p256 as generic parsers; layout, base64url and comparisons are the harness's own".into(),
     ];
-    let n = ctx.tier.pick(3_000u32, 60_000u32);
+    let n = ctx.tier.pick(3_000u32, 1_200_000u32);
     match search(ctx, 2, n, strategy(), check) {
         Search::Pass => {}
         Search::Fail(h, msg) => ctx.violation("histories", json!(h), &msg),
